@@ -58,7 +58,13 @@ func ruleRewriteSource(c *Ctx) {
 	n := 0
 	bad := []string{}
 	readsPath := false
-	for f := range staticScope(gen, "location", 2) {
+	scope := staticScope(gen, "location", 2)
+	for _, rf := range returnedFuncs(gen) {
+		for f := range staticScope(rf, "location", 2) {
+			scope[f] = true
+		}
+	}
+	for f := range scope {
 		for _, b := range f.Blocks {
 			for _, in := range b.Instrs {
 				switch x := in.(type) {
@@ -315,8 +321,8 @@ func ruleRewriteChain(c *Ctx) {
 		return
 	}
 	var lit *ssa.Function
-	for _, af := range gen.AnonFuncs {
-		if len(af.Params) == 1 && strings.HasSuffix(af.Params[0].Type().String(), "net/http.Request") {
+	for _, af := range returnedFuncs(gen) {
+		if np := len(af.Params); np >= 1 && strings.HasSuffix(af.Params[np-1].Type().String(), "net/http.Request") {
 			lit = af
 		}
 	}
@@ -331,7 +337,7 @@ func ruleRewriteChain(c *Ctx) {
 	bad := []string{}
 	sim := c.P.Simulate(lit, SimConfig{MaxVisits: 3}, func(pr *PathResult) {
 		n++
-		var prevIn *Term  // the path the previous rule was matched against
+		var prevIn *Term     // the path the previous rule was matched against
 		var produced []*Term // strings produced since then
 		for _, e := range pr.Events {
 			if e.Kind != "call" && e.Kind != "invoke" {
@@ -376,4 +382,56 @@ func ruleRewriteChain(c *Ctx) {
 		return
 	}
 	c.check(len(bad) == 0, "rewrite-chain", funcName(lit), c.P.pos(lit.Pos()), fmt.Sprintf("%d paths, %d successive rule applications: each rule is matched against the previous rule's result", n, chained), strings.Join(uniq(bad), " || "), chained)
+}
+
+// returnedFuncs: the pike functions a constructor hands out as a function value:
+// a literal, a named function, or the method behind a bound method value.
+func returnedFuncs(fn *ssa.Function) []*ssa.Function {
+	out := []*ssa.Function{}
+	var resolve func(v ssa.Value, d int)
+	resolve = func(v ssa.Value, d int) {
+		if d > 4 {
+			return
+		}
+		switch x := v.(type) {
+		case *ssa.MakeClosure:
+			f, _ := x.Fn.(*ssa.Function)
+			if f == nil {
+				return
+			}
+			if strings.HasPrefix(f.Synthetic, "bound method wrapper") {
+				for _, b := range f.Blocks {
+					for _, in := range b.Instrs {
+						if ci, ok := in.(ssa.CallInstruction); ok {
+							if sc := ci.Common().StaticCallee(); sc != nil && isPikeFunc(sc) {
+								out = append(out, sc)
+							}
+						}
+					}
+				}
+				return
+			}
+			out = append(out, f)
+		case *ssa.Function:
+			out = append(out, x)
+		case *ssa.ChangeType:
+			resolve(x.X, d+1)
+		case *ssa.MakeInterface:
+			resolve(x.X, d+1)
+		case *ssa.Phi:
+			for _, e := range x.Edges {
+				resolve(e, d+1)
+			}
+		}
+	}
+	for _, b := range fn.Blocks {
+		for _, in := range b.Instrs {
+			if r, ok := in.(*ssa.Return); ok {
+				for _, v := range r.Results {
+					resolve(v, 0)
+				}
+			}
+		}
+	}
+	return out
 }
